@@ -177,5 +177,11 @@ class Circle(ShapeBase):
     center: Optional[Vec] = None
 
 
-VERIF_CLASSES = [Vec, Pin, Item, Holder, Base0, Mid, Leaf, Port, ShapeBase, Circle, Sheet]
+@dataclass(eq=False)
+class Ring(Circle):
+    """grandchild of the alternatively mapped class"""
+    thick: float = 0.0
+
+
+VERIF_CLASSES = [Vec, Pin, Item, Holder, Base0, Mid, Leaf, Port, ShapeBase, Circle, Sheet, Ring]
 VERIF_ORMATIC = {"alternative_mappings": [VecMapping, PinMapping, ShapeBaseMapping], "type_mappings": {Money: MoneyType}}
